@@ -450,3 +450,46 @@ fn c09_with_position_is_not_progress() {
     pb.inc(100);
     assert!(pb.per_sec() < 10_000.0, "100 steps in 0.1 s reported as {} steps/s", pb.per_sec());
 }
+
+/// C19: after a draw that stopped at the terminal height, bars whose rows all became static must not be
+/// followed by the next bar on the same row.
+#[test]
+fn c19_height_limited_draw_then_all_rows_static() {
+    let term = InMemoryTerm::new(2, 10);
+    let mp = multi(&term);
+    let a = member(&mp, "a", ProgressFinish::AndLeave);
+    let b = member(&mp, "b", ProgressFinish::AndLeave);
+    let c = member(&mp, "c", ProgressFinish::AndLeave);
+    a.tick();
+    b.tick();
+    c.tick();
+    a.finish();
+    b.finish();
+    drop(a);
+    drop(b);
+    c.tick();
+    assert_eq!(term.contents(), "b:\nc:");
+}
+
+/// C19: static lines of a finished bar that were pushed out of the top of the terminal are not erased in
+/// part by a later println.
+#[test]
+fn c19_println_after_zombie_rows_scrolled_out() {
+    let term = InMemoryTerm::new(4, 4);
+    let mp = multi(&term);
+    let a = member(&mp, "a", ProgressFinish::AndLeave);
+    let b = member(&mp, "b", ProgressFinish::AndLeave);
+    let c = member(&mp, "c", ProgressFinish::AndLeave);
+    a.tick();
+    b.tick();
+    c.tick();
+    a.finish_with_message("done"); // "a:done" takes two rows of four columns
+    drop(a);
+    let d = member(&mp, "d", ProgressFinish::AndLeave);
+    d.tick(); // four rows are needed below "a:do": it scrolls out
+    assert_eq!(term.contents(), "ne\nb:\nc:\nd:");
+    c.finish_and_clear();
+    d.finish_and_clear();
+    mp.println("L0").unwrap();
+    assert_eq!(term.contents(), "ne\nL0\nb:");
+}
